@@ -246,6 +246,45 @@ def check_rec(ctx):
             ctx.check(ok, inst, "PROVENANCE", b.path, what, b.where(n), {"amount": amt.show()[:160]})
 
 
+def check_record_fields(ctx):
+    """every accounting, extent-length and layout computation reads Record.value_len / key / timestamp: each constructor
+    literal must set value_len to the length of the value it stores (a deferred generation: its predecessor's), start unpublished
+    state at (sector 0, refcount 1, not retired) and take timestamp / expiry from its parameters"""
+    inst = "C13.fields"
+    n_lit = 0
+    for b in ctx.prog.product_bodies():
+        if not b.file.endswith("core/record.rs"):
+            continue
+        for n in b.nodes:
+            if not (n.kind == "assign" and n.ev.get("rv") == "agg" and (n.ev.get("adt") or "").endswith("core::record::Record")):
+                continue
+            n_lit += 1
+            tr = A.tracer(b)
+            f = dict(zip(n.ev["fields"], [tr.operand(o) for o in n.ev["ops"]]))
+            vl, val = f.get("value_len"), f.get("value")
+            deferred = path_matches(b.path, "Record::new_deferred_with_ttl")
+            if deferred:
+                ok = vl is not None and vl.k == "field" and vl.extra[1] == "value_len" and vl.has_arg(idx=1)
+                ctx.check(ok, inst, "PIN", b.path, "a deferred generation copies value_len from the predecessor whose bytes it borrows", b.where(n.id), {"value_len": vl.show()[:60] if vl else None})
+                vs = f.get("value_source")
+                ctx.check(vs is not None and vs.has_call("Arc::downgrade") and vs.has_arg(idx=1), inst, "PIN", b.path, "and links that predecessor as its value source", b.where(n.id))
+                k = f.get("key")
+                ctx.check(k is not None and k.has_field("Record", "key") and k.has_arg(idx=1), inst, "PIN", b.path, "and keeps its key", b.where(n.id))
+            else:
+                ok = vl is not None and (vl.has_call("Vec::len") or vl.has_call("Bytes::len") or vl.has_call("slice::len")) and vl.has_arg(idx=2)
+                ctx.check(ok, inst, "PIN", b.path, "value_len is the length of the value being stored", b.where(n.id), {"value_len": vl.show()[:60] if vl else None})
+            for fld, want in (("sector", 0), ("refcount", 1), ("retired_at", 0), ("extent_state", 0)):
+                v = f.get(fld)
+                c = [x for x in (v.walk() if v is not None else []) if x.k == "const"]
+                ctx.check(bool(c) and (c[0].extra or {}).get("val") == want, inst, "PIN", b.path, "a new generation starts with %s = %d" % (fld, want), b.where(n.id), nontrivial=False)
+            ss = f.get("successor_safe")
+            c = [x for x in (ss.walk() if ss is not None else []) if x.k == "const"]
+            ctx.check(bool(c) and (c[0].extra or {}).get("val") in (0, False), inst, "PIN", b.path, "and with the retirement memo unset", b.where(n.id), nontrivial=False)
+            ts = f.get("timestamp")
+            ctx.check(ts is not None and ts.k == "arg", inst, "PIN", b.path, "the timestamp is the constructor's parameter", b.where(n.id))
+    ctx.check(n_lit == 3, inst, "anchor", "-", "Record literals in record.rs (expected 3, found %d)" % n_lit, None)
+
+
 def check_size_functions(ctx):
     """what is reserved when a record is created (FeoxStore::calculate_record_size(key.len(), value_len)) and what is released
     when it goes away (Record::calculate_size()) must be the same number: struct size + key bytes + value length, with the
@@ -331,6 +370,7 @@ def check_limit(ctx):
 
 
 def check(ctx):
+    check_record_fields(ctx)
     check_size_functions(ctx)
     check_new(ctx)
     check_repl(ctx)
